@@ -177,6 +177,7 @@ func planC12(c *Ctx, run int64) *Plan {
 					add(cat.Code, rate.Key, d, 5, q) // the table reached through a per-combo country override from another regime
 					add(cat.Code, rate.Key, d, 6, q) // value date later than the issue date, operation date present
 					add(cat.Code, rate.Key, d, 7, q) // an order instead of an invoice
+					add(cat.Code, rate.Key, d, 8, q) // a delivery, with a despatch date that is not the tax date
 					if d >= "2000-01-02" {
 						add(cat.Code, rate.Key, d, 0, q)
 						add(cat.Code, rate.Key, d, 1, q)
@@ -389,7 +390,7 @@ func c12one(x *X, reg *pubRegime, loc *time.Location, cs c12case, step int) {
 	if len(tags) > 0 {
 		doc["$tags"] = tags
 	}
-	mode := []string{"clock-00:00:00", "clock-12:00:00", "clock-23:59:59", "issue_date", "value_date", "foreign-combo", "value_date-after-issue", "order"}[op.I]
+	mode := []string{"clock-00:00:00", "clock-12:00:00", "clock-23:59:59", "issue_date", "value_date", "foreign-combo", "value_date-after-issue", "order", "delivery"}[op.I]
 	switch op.I {
 	case 3:
 		doc["issue_date"] = D
@@ -401,6 +402,11 @@ func c12one(x *X, reg *pubRegime, loc *time.Location, cs c12case, step int) {
 		doc["issue_date"] = dateAdd(D, -400)
 		doc["value_date"] = D
 		doc["op_date"] = dateAdd(D, -800)
+	case 8:
+		doc["$schema"] = "https://gobl.org/draft-0/bill/delivery"
+		doc["issue_date"] = D
+		doc["despatch_date"] = dateAdd(D, -170)
+		doc["receive_date"] = dateAdd(D, 190)
 	case 7:
 		doc["$schema"] = "https://gobl.org/draft-0/bill/order"
 		doc["issue_date"] = D
